@@ -32,7 +32,9 @@ PROPS = {
              'log gives the best chain; on real nodes with isRecordBlockSequence the whole log (GetBlockSequences, '
              'LoadBlockLastSequence) is compared with the model after every delivery and, independently of the model, replayed '
              'and compared with GetBlockHashByHeight at every height.',
-        note=_COMMON_NOTE + ' The main-chain (non para) sequence only; push notification is C32.',
+        note=_COMMON_NOTE + ' The main-chain (non para) sequence only; push notification is C32. Database reads and writes never fail in any '
+             'explored run (seeded change C26-1, a sequence number consumed but not persisted after a transient read fault inside '
+             'connectBlock, is therefore not caught).',
     ),
     'C27': dict(
         text='The mechanism model stores bodies by hash before execution, keeps errLog on index nodes and does not roll a failed '
